@@ -827,6 +827,18 @@ static int rtr_undo_update_spki_table(struct rtr_socket *rtr_socket, struct spki
 }
 
 /*
+ * @brief Fallback if the updates of a failed data synchronisation could not be undone: removes all records and
+ * router keys received from this socket and forces a Reset Query, so that no partially applied update is kept.
+ */
+static void rtr_purge_after_failed_undo(struct rtr_socket *rtr_socket)
+{
+	RTR_DBG1("Couldn't undo all update operations from failed data synchronisation: Purging all records");
+	pfx_table_src_remove(rtr_socket->pfx_table, rtr_socket);
+	spki_table_src_remove(rtr_socket->spki_table, rtr_socket);
+	rtr_socket->request_session_id = true;
+}
+
+/*
  * @brief Appends the Prefix PDU pdu to ary.
  *
  * @return RTR_SUCCESS On success
@@ -1185,18 +1197,15 @@ static int rtr_sync_receive_and_store_pdus(struct rtr_socket *rtr_socket)
 			// add all IPv4 prefix pdu to the pfx_table
 			for (unsigned int i = 0; i < ipv4_pdus_nindex; i++) {
 				if (rtr_update_pfx_table(rtr_socket, pfx_update_table, &(ipv4_pdus[i])) == PFX_ERROR) {
-					// undo all record updates, except the last which produced the error
+					// undo all record updates, except the last which produced the error,
+					// in reverse order, a PDU may depend on the PDUs before it
 					RTR_DBG("Error during data synchronisation, recovering Serial Nr. %u state",
 						rtr_socket->serial_number);
-					for (unsigned int j = 0; j < i && retval == PFX_SUCCESS; j++)
+					for (unsigned int j = i; j > 0 && retval == PFX_SUCCESS; j--)
 						retval = rtr_undo_update_pfx_table(rtr_socket, pfx_update_table,
-										   &(ipv4_pdus[j]));
-					if (retval == RTR_ERROR) {
-						RTR_DBG1(
-							"Couldn't undo all update operations from failed data synchronisation: Purging all records");
-						pfx_table_src_remove(rtr_socket->pfx_table, rtr_socket);
-						rtr_socket->request_session_id = true;
-					}
+										   &(ipv4_pdus[j - 1]));
+					if (retval != PFX_SUCCESS)
+						rtr_purge_after_failed_undo(rtr_socket);
 					rtr_change_socket_state(rtr_socket, RTR_ERROR_FATAL);
 					retval = RTR_ERROR;
 					goto cleanup;
@@ -1209,18 +1218,14 @@ static int rtr_sync_receive_and_store_pdus(struct rtr_socket *rtr_socket)
 					// undo all record updates if error occurred
 					RTR_DBG("Error during data synchronisation, recovering Serial Nr. %u state",
 						rtr_socket->serial_number);
-					for (unsigned int j = 0; j < ipv4_pdus_nindex && retval == PFX_SUCCESS; j++)
+					for (unsigned int j = ipv4_pdus_nindex; j > 0 && retval == PFX_SUCCESS; j--)
 						retval = rtr_undo_update_pfx_table(rtr_socket, pfx_update_table,
-										   &(ipv4_pdus[j]));
-					for (unsigned int j = 0; j < i && retval == PFX_SUCCESS; j++)
+										   &(ipv4_pdus[j - 1]));
+					for (unsigned int j = i; j > 0 && retval == PFX_SUCCESS; j--)
 						retval = rtr_undo_update_pfx_table(rtr_socket, pfx_update_table,
-										   &(ipv6_pdus[j]));
-					if (retval == PFX_ERROR) {
-						RTR_DBG1(
-							"Couldn't undo all update operations from failed data synchronisation: Purging all records");
-						pfx_table_src_remove(rtr_socket->pfx_table, rtr_socket);
-						rtr_socket->request_session_id = true;
-					}
+										   &(ipv6_pdus[j - 1]));
+					if (retval != PFX_SUCCESS)
+						rtr_purge_after_failed_undo(rtr_socket);
 					rtr_change_socket_state(rtr_socket, RTR_ERROR_FATAL);
 					retval = RTR_ERROR;
 					goto cleanup;
@@ -1234,24 +1239,18 @@ static int rtr_sync_receive_and_store_pdus(struct rtr_socket *rtr_socket)
 				    SPKI_ERROR) {
 					RTR_DBG("Error during router key data synchronisation, recovering Serial Nr. %u state",
 						rtr_socket->serial_number);
-					for (unsigned int j = 0; j < ipv4_pdus_nindex && retval == PFX_SUCCESS; j++)
+					for (unsigned int j = ipv4_pdus_nindex; j > 0 && retval == PFX_SUCCESS; j--)
 						retval = rtr_undo_update_pfx_table(rtr_socket, pfx_update_table,
-										   &(ipv4_pdus[j]));
-					for (unsigned int j = 0; j < ipv6_pdus_nindex && retval == PFX_SUCCESS; j++)
+										   &(ipv4_pdus[j - 1]));
+					for (unsigned int j = ipv6_pdus_nindex; j > 0 && retval == PFX_SUCCESS; j--)
 						retval = rtr_undo_update_pfx_table(rtr_socket, pfx_update_table,
-										   &(ipv6_pdus[j]));
-					for (unsigned int j = 0;
-					// cppcheck-suppress duplicateExpression
-					     j < i && (retval == PFX_SUCCESS || retval == SPKI_SUCCESS); j++)
+										   &(ipv6_pdus[j - 1]));
+					// PFX_SUCCESS and SPKI_SUCCESS have the same value
+					for (unsigned int j = i; j > 0 && retval == SPKI_SUCCESS; j--)
 						retval = rtr_undo_update_spki_table(rtr_socket, spki_update_table,
-										    &(router_key_pdus[j]));
-					// cppcheck-suppress duplicateExpression
-					if (retval == RTR_ERROR || retval == SPKI_ERROR) {
-						RTR_DBG1(
-							"Couldn't undo all update operations from failed data synchronisation: Purging all key entries");
-						spki_table_src_remove(spki_update_table, rtr_socket);
-						rtr_socket->request_session_id = true;
-					}
+										    &(router_key_pdus[j - 1]));
+					if (retval != SPKI_SUCCESS)
+						rtr_purge_after_failed_undo(rtr_socket);
 					rtr_change_socket_state(rtr_socket, RTR_ERROR_FATAL);
 					retval = RTR_ERROR;
 					goto cleanup;
